@@ -45,6 +45,7 @@ type model struct {
 	cInt           int32
 	cLng           int64
 	tree           []mPara
+	t2             []string // nested tree as a flat token list (c07_tree2.go)
 }
 
 func newModel() *model {
@@ -725,6 +726,7 @@ func c07Families() []c07family {
 			}
 			return ""
 		}},
+		tree2Family(),
 	}
 }
 
